@@ -2,7 +2,8 @@
    a: sums, row validity, dense sampler   b: greedy   c: softmax, epsilon, LRP   d: WoLF, projection, PGA-APP
    e: Thompson kernel   f: swap-and-pop lists, SuccessiveRejects, ESRL   g: TopTwo / T3C kernels
    h: greedy on clustered rows (ties inside the tolerances, large magnitudes), maximum-first repair
-   i: Monte-Carlo tables (Thompson / TopTwo / T3C getPolicy, getActionProbability) -/
+   i: Monte-Carlo tables (Thompson / TopTwo / T3C getPolicy, getActionProbability), factored ε-mixture, recommendAction
+   j: shift invariance of the bandit selection kernels, EpsilonPolicy over QGreedyPolicy   (x: obligations on Gen.C09, separate module) -/
 import AITB.Props.C09a
 import AITB.Props.C09b
 import AITB.Props.C09c
@@ -12,3 +13,4 @@ import AITB.Props.C09f
 import AITB.Props.C09g
 import AITB.Props.C09h
 import AITB.Props.C09i
+import AITB.Props.C09j
